@@ -581,7 +581,12 @@ func CheckWrites(rc *RunCtx, rec *BuildRec, ws *WriteState, label string, cancel
 			ws.Written[op.Path] = true
 		case "remove":
 			if op.Err != "" && op.Fault == "" {
-				continue // nothing was removed
+				// nothing was removed - but the attempt alone shows what the context believes it
+				// wrote earlier: it must be a path that an earlier build at least tried to write
+				if rec.Opts.Write && !ws.Written[op.Path] {
+					return viol("tried-to-remove-foreign-path", "", "the build tried to remove %s (%s), a path that no earlier build of this context wrote or tried to write", op.Path, op.Err)
+				}
+				continue
 			}
 			if !rec.Opts.Write {
 				return viol("remove-while-disabled", "", "Write is false but the build removed %s", op.Path)
@@ -613,6 +618,13 @@ func CheckWrites(rc *RunCtx, rec *BuildRec, ws *WriteState, label string, cancel
 			rc.Probe("unchanged_write_skipped")
 		}
 		rc.Probe("write_build_checked")
+	}
+	// every output a writing build reports counts as claimed by the context from now on, also
+	// when creating its directory failed and the write was never attempted
+	if rec.Opts.Write {
+		for p := range outputs {
+			ws.Written[p] = true
+		}
 	}
 	// nothing else in the tree changed: any file that differs between Before and After
 	// must be a write or remove target seen above
